@@ -303,10 +303,208 @@ def r_splice(c):
                 ok_detail=why)
 
 
+# ---------------------------------------------------------------------------
+# sibling agreement: forward / reflected operators, start / stop of a slice
+
+OPERATOR_OF = {"add": "add", "mul": "mul", "sub": "sub", "floordiv": "floordiv",
+               "truediv": "truediv", "mod": "mod", "pow": "pow", "and": "and_",
+               "or": "or_", "xor": "xor"}
+
+
+def _binop_call(fd):
+    """the single `self._binary_op(operator.X, other, **kw)` call a dunder returns"""
+    rets = [r for r in ast.walk(fd) if isinstance(r, ast.Return) and r.value is not None]
+    calls = [r.value for r in rets if isinstance(r.value, ast.Call)
+             and ast.unparse(r.value.func) == "self._binary_op"]
+    return calls[0] if len(calls) == 1 else None
+
+
+def r_operators(c):
+    """a <op> b and b <op> a are built by sibling dunders that must agree"""
+    m = c.model
+    ci = m.cls("pytato.array.Array")
+    n = 0
+    for name, opname in sorted(OPERATOR_OF.items()):
+        fwd, rev = ci.methods.get(f"__{name}__"), ci.methods.get(f"__r{name}__")
+        cname = f"Array.__{name}__/__r{name}__"
+        if fwd is None or rev is None:
+            c.violation("R03-OPERATORS", cname, "both-exist", m.loc(ci.module, ci.node),
+                        f"__{name}__ or __r{name}__ is missing: scalar <op> array and "
+                        "array <op> scalar are not both built by pytato")
+            continue
+        n += 1
+        cf, cr = _binop_call(fwd), _binop_call(rev)
+        where = m.loc(ci.module, rev)
+        if cf is None or cr is None:
+            c.violation("R03-OPERATORS", cname, "delegates-to-_binary_op", where,
+                        "the operator does not return exactly one self._binary_op(...) call")
+            continue
+        other_f, other_r = fwd.args.args[1].arg, rev.args.args[1].arg
+        af = [ast.unparse(a) for a in cf.args]
+        ar = [ast.unparse(a) for a in cr.args]
+        c.check(af == [f"operator.{opname}", other_f] and ar == [f"operator.{opname}", other_r],
+                "R03-OPERATORS", cname, f"operator.{opname}-on-the-other-operand", where,
+                f"__{name}__ passes {af}, __r{name}__ passes {ar}: both must apply "
+                f"operator.{opname} to their `other` argument")
+        kf = {k.arg: ast.unparse(k.value) for k in cf.keywords}
+        kr = {k.arg: ast.unparse(k.value) for k in cr.keywords}
+        c.check(kr.get("reverse") == "True" and kf.get("reverse", "False") == "False",
+                "R03-OPERATORS", cname, "only-the-reflected-one-reverses", where,
+                f"reverse= is {kf.get('reverse')} in __{name}__ and {kr.get('reverse')} in "
+                f"__r{name}__: operands would be applied in the wrong order")
+        kf.pop("reverse", None)
+        kr.pop("reverse", None)
+        c.check(kf == kr, "R03-OPERATORS", cname, "same-options", where,
+                f"__{name}__ passes {kf} but __r{name}__ passes {kr}: the result dtype / "
+                "expression of `scalar <op> array` differs from `array <op> scalar` in "
+                "more than the operand order")
+        # whatever else the two do before delegating (argument checks) agrees
+        # after exchanging the operand order
+        def pre(fd, other):
+            out = []
+            for st in fd.body:
+                if isinstance(st, ast.Return) and st.value is not None \
+                        and isinstance(st.value, ast.Call) \
+                        and ast.unparse(st.value.func) == "self._binary_op":
+                    continue
+                if isinstance(st, ast.Expr) and isinstance(st.value, ast.Constant):
+                    continue
+                out.append(ast.unparse(st).replace(other, "<other>"))
+            return out
+        pf = pre(fwd, other_f)
+        pr = [s_.replace("(<other>, self)", "(self, <other>)") for s_ in pre(rev, other_r)]
+        c.check(pf == pr, "R03-OPERATORS", cname, "same-argument-checks", where,
+                "the forward and the reflected operator validate their arguments "
+                "differently")
+    if n < 8:
+        raise AnalysisError(f"only {n} operator pairs found (floor 8)")
+    # _binary_op: the two broadcast calls differ exactly in the operand order
+    bo = ci.methods["_binary_op"]
+    calls = [x for x in ast.walk(bo) if isinstance(x, ast.Call)
+             and ast.unparse(x.func).endswith("broadcast_binary_op")]
+    where = m.loc(ci.module, bo)
+    other = bo.args.args[2].arg
+    ok = False
+    if len(calls) == 2:
+        a0, a1 = calls
+        rest = lambda x: ([ast.unparse(a) for a in x.args[2:]],
+                          sorted((k.arg, ast.unparse(k.value)) for k in x.keywords))
+        heads = {tuple(ast.unparse(a) for a in x.args[:2]) for x in calls}
+        ok = rest(a0) == rest(a1) and heads == {("self", other), (other, "self")}
+        # the swapped one is the one under `if reverse`
+        for x in calls:
+            p = x
+            while not isinstance(p, ast.If) and p is not bo:
+                p = p._parent
+            if isinstance(p, ast.If) and ast.unparse(p.test) == "reverse":
+                in_body = any(x in list(ast.walk(s_)) for s_ in p.body)
+                want = (other, "self") if in_body else ("self", other)
+                ok = ok and tuple(ast.unparse(a) for a in x.args[:2]) == want
+    c.check(ok, "R03-OPERATORS", "Array._binary_op", "reverse-swaps-exactly-the-operands",
+            where, "the reversed and the direct broadcast_binary_op calls differ in more "
+            "(or less) than the order of the two operands")
+    # every option of _binary_op reaches broadcast_binary_op
+    for a in bo.args.args[3:]:
+        if a.arg == "reverse":
+            continue
+        c.check(all(any(ast.unparse(v) == a.arg for v in
+                        list(x.args) + [k.value for k in x.keywords]) for x in calls),
+                "R03-OPERATORS", "Array._binary_op", f"passes-on:{a.arg}", where,
+                f"option {a.arg} is accepted but not handed to broadcast_binary_op")
+
+
+def _clamp_block(fd, var):
+    """the `if <var> is None: ... else: ...` statement normalising ``var``"""
+    for st in fd.body:
+        if isinstance(st, ast.If) and ast.unparse(st.test) == f"{var} is None":
+            return st
+    return None
+
+
+def r_slice(c):
+    """slice normalisation: start and stop are clamped by sibling blocks"""
+    m = c.model
+    fd = m.func("pytato.utils._normalize_slice")
+    where = m.loc("pytato.utils", fd)
+    from pta.pat import find
+    un = find(fd, "$a, $b, $c = $s.start, $s.stop, $s.step")
+    if len(un) != 1:
+        raise AnalysisError("anchor vanished: start/stop/step unpacking in _normalize_slice")
+    sv, tv, pv = un[0]["$a"], un[0]["$b"], un[0]["$c"]
+    L = fd.args.args[1].arg
+    bs, bt = _clamp_block(fd, sv), _clamp_block(fd, tv)
+    if bs is None or bt is None:
+        raise AnalysisError("anchor vanished: `if start is None` / `if stop is None` blocks")
+    import re
+
+    def norm(block, var):
+        s_ = ast.unparse(block)
+        s_ = re.sub(rf"\bdefault_{var}\b|\b{var}_default\b", "<default>", s_)
+        return re.sub(rf"\b{var}\b", "<v>", s_)
+    ns, nt = norm(bs, sv), norm(bt, tv)
+    # defaults: whatever names they have, they are the values assigned under
+    # step > 0 / else; compare the blocks with the default's name abstracted
+    ds = [ast.unparse(x.value) for x in ast.walk(bs) if isinstance(x, ast.Assign)
+          and isinstance(x.value, ast.Name) and x in bs.body]
+    dt = [ast.unparse(x.value) for x in ast.walk(bt) if isinstance(x, ast.Assign)
+          and isinstance(x.value, ast.Name) and x in bt.body]
+    for d in ds:
+        ns = ns.replace(d, "<default>")
+    for d in dt:
+        nt = nt.replace(d, "<default>")
+    c.check(ns == nt, "R03-SLICE", "utils._normalize_slice", "start-and-stop-clamped-alike",
+            where,
+            "start and stop are normalised by different code although Python/NumPy clamp "
+            "both the same way (slice.indices): e.g. a different boundary for one of them "
+            f"gives a wrong length for negative steps. start: `{ns[:70]}...` stop: "
+            f"`{nt[:70]}...`")
+    # the common shape: in range [-L, L) -> v % L; >= L -> L or L-1; below -> 0 or -1
+    for var, blk in ((sv, bs), (tv, bt)):
+        inner = [x for x in ast.walk(blk) if isinstance(x, ast.If)
+                 and isinstance(x.test, ast.Compare) and len(x.test.ops) == 2]
+        ok = False
+        for i in inner:
+            t = i.test
+            if ast.unparse(t.left) == f"-{L}" and ast.unparse(t.comparators[0]) == var \
+                    and ast.unparse(t.comparators[1]) == L \
+                    and isinstance(t.ops[0], ast.LtE) and isinstance(t.ops[1], ast.Lt):
+                body = [ast.unparse(s_) for s_ in i.body]
+                hi = i.orelse[0] if len(i.orelse) == 1 and isinstance(i.orelse[0], ast.If) \
+                    else None
+                ok = body == [f"{var} = {var} % {L}"] and hi is not None \
+                    and ast.unparse(hi.test) == f"{var} >= {L}" \
+                    and [ast.unparse(s_) for s_ in hi.body] == [
+                        f"{var} = {L} if {pv} > 0 else {L} - 1"] \
+                    and [ast.unparse(s_) for s_ in hi.orelse] == [
+                        f"{var} = 0 if {pv} > 0 else -1"]
+        c.check(ok, "R03-SLICE", "utils._normalize_slice", f"{'start' if var == sv else 'stop'}:"
+                "clamped-like-slice.indices", where,
+                f"`{var}` is not normalised as: -L <= v < L -> v % L; v >= L -> L (L-1 for a "
+                "negative step); v < -L -> 0 (-1 for a negative step), which is what "
+                "Python's slice.indices does")
+    # defaults by sign of the step
+    d = find(fd, f"""
+if {pv} > 0:
+    $ds = 0
+    $dt = {L}
+else:
+    $ds = {L} - 1
+    $dt = -1
+""")
+    c.check(len(d) == 1, "R03-SLICE", "utils._normalize_slice", "defaults-by-step-sign", where,
+            "the defaults of an omitted start/stop are not (0, L) for a positive and "
+            "(L-1, -1) for a negative step")
+    c.check(any(isinstance(i, ast.If) and ast.unparse(i.test) == f"{pv} == 0"
+                and any(isinstance(s_, ast.Raise) for s_ in i.body) for i in fd.body),
+            "R03-SLICE", "utils._normalize_slice", "zero-step-rejected", where,
+            "a zero step is not rejected when the slice is built")
+
+
 SPEC = Spec(
     prop="C03",
-    rules=[r_eager, r_axis, r_splice],
-    floors={"R03-EAGER": 70, "R03-AXIS": 15, "R03-SPLICE": 3},
+    rules=[r_eager, r_axis, r_splice, r_operators, r_slice],
+    floors={"R03-EAGER": 70, "R03-AXIS": 15, "R03-SPLICE": 3, "R03-OPERATORS": 40,
+            "R03-SLICE": 5},
     explanation=(
         "Decides two clauses; the agreement of inferred shapes/dtypes with NumPy's "
         "value-level behaviour is NOT decided. R03-EAGER: for every concrete array "
